@@ -108,6 +108,9 @@ func goroot() string { return runtime.GOROOT() }
 func (c *fnCtx) paramTypeOf(e ast.Expr) (*fnType, bool) {
 	if st, ok := e.(*ast.StarExpr); ok {
 		t := c.goType(st.X)
+		if t.k == "struct" {
+			return c.goType(e), false // a pointer to an immutable struct: a value
+		}
 		if t.k != "map" {
 			c.lostAt(e, "type %s", src(e))
 		}
